@@ -231,6 +231,10 @@ class PointJacobi(object):
             return NotImplemented
         if self.__curve != other.curve():
             return False
+        if not z1 or not z2:
+            # point at infinity given as (X, Y, 0): it has no affine
+            # coordinates to compare, it equals only the point at infinity
+            return (not y1 or not z1) and (not y2 or not z2)
         p = self.__curve.p()
 
         zz1 = z1 * z1 % p
